@@ -57,19 +57,20 @@ CALLS = {
  'gateway_coef_sign': ('bu', lambda A: ((A, _ci(len(A))), {})), 'participation_coef_sign': ('bu', lambda A: ((A, _ci(len(A))), {})),
  'module_degree_zscore': ('bd', lambda A: ((A, _ci(len(A)), 3), {})),
  'clustering_coef_wu_sign': ('bu', lambda A: ((A,), {})),
- 'efficiency_bin': ('bu', lambda A: ((A, True), {})), 'efficiency_wei': ('bu', lambda A: ((A, True), {})),
+ 'efficiency_bin': ('bd', lambda A: ((A, True), {})), 'efficiency_wei': ('bu', lambda A: ((A, True), {})),
  'clustering_coef_bd': ('wd', lambda A: ((A,), {})), 'transitivity_bd': ('wd', lambda A: ((A,), {})), 'transitivity_bu': ('wu', lambda A: ((A,), {})),
  'modularity_louvain_und': ('wu', lambda A: ((A,), {'seed': 1})), 'modularity_louvain_dir': ('wd', lambda A: ((A,), {'seed': 1})),
  'modularity_louvain_und_sign': ('wu', lambda A: ((A,), {'seed': 1})),
 }
-for _f in ('modularity_finetune_und_sign', 'modularity_probtune_und_sign', 'community_louvain'):
+for _f in ('modularity_finetune_und_sign', 'modularity_probtune_und_sign'):
     CALLS[_f] = ('bu', lambda A: ((A,), {'seed': 1}))
+CALLS['community_louvain'] = ('bu', lambda A: ((A,), {'seed': 1, 'B': 'negative_sym'}))
 for _f in ('randmio_und_signed',):
     CALLS[_f] = ('bu', lambda A: ((A, 2), {'seed': 1}))
 CALLS['randmio_dir_signed'] = ('bd', lambda A: ((A, 2), {'seed': 1}))
-for _f in ('clustering_coef_wu', 'transitivity_wu', 'kcoreness_centrality_bu', 'matching_ind_und', 'eigenvector_centrality_und', 'subgraph_centrality'):
+for _f in ('clustering_coef_wu', 'transitivity_wu', 'matching_ind_und', 'eigenvector_centrality_und', 'subgraph_centrality'):
     CALLS[_f] = ('bu', lambda A: ((A,), {}))
-for _f in ('clustering_coef_wd', 'transitivity_wd'):
+for _f in ('clustering_coef_wd', 'transitivity_wd', 'kcoreness_centrality_bu'):
     CALLS[_f] = ('bd', lambda A: ((A,), {}))
 
 
